@@ -121,7 +121,9 @@ def fullwidth(v):
 NORMS = [("trailing-space", lambda v: v + " "), ("leading-space", lambda v: " " + v), ("space-both-sides", lambda v: " " + v + " "),
          ("trailing-tab", lambda v: v + "\t"), ("trailing-newline", lambda v: v + "\n"), ("leading-cr", lambda v: "\r" + v),
          ("other-case", lambda v: v.upper() if v != v.upper() else v.lower()), ("nfkc-look-alike", fullwidth),
-         ("trailing-nbsp", lambda v: v + "\u00a0")]
+         ("trailing-nbsp", lambda v: v + "\u00a0"),
+         ("percent-encoded", lambda v: v[:-1] + "%%%02X" % ord(v[-1])), ("entity-encoded", lambda v: v[:-1] + "&#%d;" % ord(v[-1])),
+         ("trailing-zero-width-space", lambda v: v + "\u200b")]
 
 
 def tool_side_normalisation(orig_xml, level):
